@@ -17,7 +17,7 @@ def sh(cmd, **kw):
 
 
 def do_import(src, prop):
-    for letter in "abcdefghij":
+    for letter in "abcdefghijk":
         d = os.path.join(src, letter + ".diff")
         if not os.path.exists(d):
             continue
